@@ -82,9 +82,10 @@ def main():
         else:
             print(f"{rid:28s} silent")
             lines.append(f"| {rid} | {desc} | silent |")
-    print(f"{alarms}/{len(ids)} refactorings raised an alarm")
+    stale = sum(1 for rid in ids if "error" in res[rid])
+    print(f"{alarms}/{len(ids)} refactorings raised an alarm" + (f"; {stale} patch(es) NO LONGER APPLY to /repo (rebase them)" if stale else ""))
     if not sel:
-        lines += ["", f"{alarms}/{len(ids)} raised an alarm."]
+        lines += ["", f"{alarms}/{len(ids)} raised an alarm." + (f" {stale} no longer apply." if stale else "")]
         open(os.path.join(BASE, "RESULT.md"), "w").write("\n".join(lines) + "\n")
 
 
